@@ -9,9 +9,13 @@ Mirrors `seqm/seqm_functions/scf_loop.py`:
   `SCF.forward` writes `SCF.scf_backward_eps = eps` (the SCF tolerance of this call — the value
   given to `__init__` is overwritten) and `SCF.themethod = themethod`, and reads `SCF.converger`,
   `SCF.sp2`;
-  `SCF.backward` **reads** `SCF.themethod` and `SCF.scf_backward_eps` — at the time the backward
-  pass runs, i.e. whatever the latest forward of *any* job left there.  (`eps` is also saved in
-  `ctx` by `forward`, but `backward` does not use the saved value.)
+  `SCF.backward` at the pinned commit **read** `SCF.themethod` and `SCF.scf_backward_eps` — at the
+  time the backward pass runs, i.e. whatever the latest forward of *any* job left there (finding
+  F13; `runLegacy`/`stepLegacy`).  Since the `fix:` commit `forward` stores
+  `ctx.themethod = themethod` and `backward` uses `ctx.themethod` and the `eps` tensor saved by its
+  own forward (`backward_eps = eps.to(Pin.device)`): the values travel in `ctx` (`run`/`step`, the
+  live semantics).  The class attributes are still written, and `SCF.converger`/`SCF.sp2` are
+  still read by `forward` — immediately after the `__init__` of the same `scf_loop` call.
 * `scf_loop` instantiates `SCF(use_sp2=…, scf_converger=…, scf_backward_eps=…)` and calls `.apply`
   once per energy evaluation (`scf_backward == 1`; `SCF0` for `scf_backward == 0` shares the
   registers of its base class for writing).
@@ -20,8 +24,7 @@ A job `j` carries its own settings.  `Op.fwd j` = one `scf_loop` call of job `j`
 (`__init__` + `forward`); `Op.bwd j` = autograd running `SCF.backward` on the graph node that
 `fwd j` created.  The output of a backward records which `(eps, method)` it used.
 
-`runFixed` is the repaired semantics (DESIGN Appendix C.10): `forward` stores the two values in
-`ctx`, `backward` reads them from there.
+`run` is the live (repaired, DESIGN Appendix C.10) semantics; `runLegacy` the pinned commit's.
 -/
 namespace History
 
@@ -67,25 +70,25 @@ def Regs.read (r : Regs) : Output :=
 /-- job table lookup; an unknown job id has no effect on the registers -/
 def job? (jobs : List Settings) (j : Nat) : Option Settings := jobs[j]?
 
-def step (jobs : List Settings) (r : Regs) : Op → Regs × Option Output
+def stepLegacy (jobs : List Settings) (r : Regs) : Op → Regs × Option Output
   | .fwd j => match job? jobs j with
     | some s => (r.forward s, none)
     | none => (r, none)
   | .bwd _ => (r, some r.read)
 
-/-- the code's semantics: one output per backward, in order -/
-def run (jobs : List Settings) : Regs → List Op → List Output
+/-- the pinned commit's semantics (class-attribute reads): one output per backward, in order -/
+def runLegacy (jobs : List Settings) : Regs → List Op → List Output
   | _, [] => []
   | r, op :: ops =>
-    let (r', o) := step jobs r op
+    let (r', o) := stepLegacy jobs r op
     match o with
-    | some out => out :: run jobs r' ops
-    | none => run jobs r' ops
+    | some out => out :: runLegacy jobs r' ops
+    | none => runLegacy jobs r' ops
 
 /-- register state after a history -/
 def after (jobs : List Settings) : Regs → List Op → Regs
   | r, [] => r
-  | r, op :: ops => after jobs (step jobs r op).1 ops
+  | r, op :: ops => after jobs (stepLegacy jobs r op).1 ops
 
 /-- what job `j`'s backward should use: its own forward's values -/
 def own (jobs : List Settings) (j : Nat) : Output :=
@@ -97,26 +100,26 @@ def ownOutputs (jobs : List Settings) : List Op → List Output
   | .fwd _ :: ops => ownOutputs jobs ops
   | .bwd j :: ops => own jobs j :: ownOutputs jobs ops
 
-/-! ## repaired semantics: values travel in `ctx` -/
+/-! ## live semantics: values travel in `ctx` -/
 
 /-- per-job autograd context: what `forward` saved (`ctx.scf_backward_eps`, `ctx.themethod`) -/
 abbrev Ctx := Nat → Option (Nat × Nat)
 
 def Ctx.save (c : Ctx) (j : Nat) (v : Nat × Nat) : Ctx := fun k => if k = j then some v else c k
 
-def stepFixed (jobs : List Settings) (c : Ctx) : Op → Ctx × Option Output
+def step (jobs : List Settings) (c : Ctx) : Op → Ctx × Option Output
   | .fwd j => match job? jobs j with
     | some s => (c.save j (s.eps, s.method), none)
     | none => (c, none)
   | .bwd j => (c, some (c j))
 
-def runFixed (jobs : List Settings) : Ctx → List Op → List Output
+def run (jobs : List Settings) : Ctx → List Op → List Output
   | _, [] => []
   | c, op :: ops =>
-    let (c', o) := stepFixed jobs c op
+    let (c', o) := step jobs c op
     match o with
-    | some out => out :: runFixed jobs c' ops
-    | none => runFixed jobs c' ops
+    | some out => out :: run jobs c' ops
+    | none => run jobs c' ops
 
 /-- the most recent forward of a history (the owner of the registers) -/
 def lastFwd : List Op → Option Nat
@@ -149,13 +152,14 @@ def showOutput : Output → String
 
 /-- `history njobs {eps_j method_j}*njobs nops {op job}*nops` (all decimal naturals; `eps`/`method`
     are labels chosen by the harness; `op` 0 = forward, 1 = backward; a process starts with unset
-    registers) → one token `eps,method` per backward op in order (`-` = register unset); `none`
-    when there is no backward.
-    `history_fixed …` same arguments, repaired semantics (`-` = job never forwarded). -/
+    registers) → one token `eps,method` per backward op in order (`-` = job never forwarded);
+    `none` when there is no backward.  Live semantics (values read from `ctx`).
+    `history_legacy …` same arguments, semantics of the pinned commit (class-attribute reads;
+    `-` = register unset). -/
 def handle (toks : List String) : Option String :=
   match toks with
   | op :: rest =>
-    if op = "history" ∨ op = "history_fixed" then do
+    if op = "history" ∨ op = "history_legacy" then do
       let ns ← Util.natList? rest
       match ns with
       | nj :: r1 =>
@@ -163,7 +167,7 @@ def handle (toks : List String) : Option String :=
         match r2 with
         | nops :: r3 =>
           let ops ← parseOps nops r3
-          let outs := if op = "history" then run jobs {} ops else runFixed jobs (fun _ => none) ops
+          let outs := if op = "history" then run jobs (fun _ => none) ops else runLegacy jobs {} ops
           pure (if outs.isEmpty then "none" else " ".intercalate (outs.map showOutput))
         | _ => none
       | _ => none
